@@ -582,6 +582,9 @@ func (t *tcode) computeImpure() {
 	ext := map[string]bool{}
 	for key, fi := range t.fns {
 		ast.Inspect(fi.decl.Body, func(n ast.Node) bool {
+			if ta, ok := n.(*ast.TypeAssertExpr); ok && ta.Type != nil {
+				ext[key] = true
+			}
 			if c, ok := n.(*ast.CallExpr); ok {
 				if obj := t.calleeObj(c); obj != nil {
 					if _, ok := extFuncs[t.objKey(obj)]; ok {
@@ -2069,10 +2072,64 @@ func (e *emitter) bindCallResult(sb *strings.Builder, c *ast.CallExpr, v string,
 	}
 }
 
+// typeAssert: `v, ok := x.F.(T)` where F is an interface-typed field of a modelled struct (the field itself is not
+// modelled). Which dynamic type the field holds is an EXTERNAL fact about the struct value: it becomes the field
+// `<F>_as_<T> : Struct → T × Bool` of the package's Ext structure.
+func (e *emitter) typeAssert(sb *strings.Builder, s *ast.AssignStmt, ta *ast.TypeAssertExpr, n int) {
+	if !e.fi.usesExt {
+		e.t.fail(ta, "type assertion outside a definition with external functions")
+	}
+	se, ok := ta.X.(*ast.SelectorExpr)
+	if !ok {
+		e.t.fail(ta, "type assertion on something that is not a struct field")
+	}
+	sel, ok := e.t.L.info.Selections[se]
+	if !ok || sel.Kind() != types.FieldVal {
+		e.t.fail(ta, "type assertion on something that is not a struct field")
+	}
+	if _, isIface := sel.Obj().Type().Underlying().(*types.Interface); !isIface {
+		e.t.fail(ta, "type assertion on a non-interface field")
+	}
+	baseT := e.typeOf(se.X)
+	toT := e.typeOf(ta.Type)
+	tn := toT
+	if p, ok := tn.(*types.Pointer); ok {
+		tn = p.Elem()
+	}
+	named, ok := tn.(*types.Named)
+	if !ok {
+		e.t.fail(ta, "type assertion to an unnamed type")
+	}
+	field := sel.Obj().Name() + "_as_" + named.Obj().Name()
+	sig := types.NewSignatureType(nil, nil, nil,
+		types.NewTuple(types.NewVar(token.NoPos, nil, "x", baseT)),
+		types.NewTuple(types.NewVar(token.NoPos, nil, "", toT), types.NewVar(token.NoPos, nil, "", types.Typ[types.Bool])), false)
+	e.t.extUse(e.fi.pkg, field, sig, ta)
+	var h hoist
+	base := e.expr(se.X, &h)
+	e.emitHoist(sb, &h, n)
+	a, b := e.fresh(), e.fresh()
+	sb.WriteString(fmt.Sprintf("%slet (%s, %s) := (ext.%s %s)\n", e.ind(n), a, b, field, e.atom(base)))
+	for i, l := range s.Lhs {
+		if s.Tok == token.DEFINE {
+			if id, ok := l.(*ast.Ident); ok {
+				e.noteDecl(id)
+			}
+		}
+		e.assignTo(sb, l, []string{a, b}[i], n, &h)
+	}
+}
+
 func (e *emitter) assign(sb *strings.Builder, s *ast.AssignStmt, n int) {
 	var h hoist
 	switch s.Tok {
 	case token.DEFINE, token.ASSIGN:
+		if len(s.Rhs) == 1 && len(s.Lhs) == 2 {
+			if ta, ok := s.Rhs[0].(*ast.TypeAssertExpr); ok && ta.Type != nil {
+				e.typeAssert(sb, s, ta, n)
+				return
+			}
+		}
 		if len(s.Rhs) == 1 {
 			if c, ok := s.Rhs[0].(*ast.CallExpr); ok {
 				if tv, ok := e.t.L.info.Types[c.Fun]; !(ok && tv.IsType()) {
